@@ -48,12 +48,18 @@ class Plan:
                 time.sleep(d)
         it = self.interrupt
         if it is not None and it["fn"] == fn and it["tag"] == tag and it["iter"] == CTX["iter"] and it["call"] == idx:
-            if it.get("signal"):
+            if it.get("signal") == "parent":
+                import signal
+
+                os.kill(os.getppid(), signal.SIGINT)  # only the process driving the pool is interrupted
+                time.sleep(0.3)
+            elif it.get("signal"):
                 import signal
 
                 os.killpg(os.getpgid(0), signal.SIGINT)
                 time.sleep(0.5)  # the default KeyboardInterrupt is raised while we wait
             else:
+                CTX["interrupt_t"] = time.monotonic_ns()
                 raise InjectedInterrupt(f"injected at {fn} call {idx} of chain {tag} iteration {CTX['iter']}")
 
 
